@@ -27,6 +27,7 @@ def run(ck, progs):
         ck.config = cfg
         ck.guard("C09-a TAINT serializer", lambda: c09a(ck, prog))
         ck.guard("C09-b TABLE grammar", lambda: c09b(ck, prog))
+        ck.guard("C09-c DECISION char", lambda: c09c(ck, prog))
     ck.config = None
 
 
@@ -177,3 +178,36 @@ def c09b(ck, prog):
         ok = (not s_sup) or d_sup
         ck.ob(R, "matrix:%s" % k, ok, d.loc(None), "" if ok else "the serializer accepts %s values but deserialize_%s is an unconditional error" % (k, DE_OF.get(k, k)), how="serialize_%s %s / deserialize_%s %s" % (k, "supported" if s_sup else "refused", DE_OF.get(k, k), "supported" if d_sup else "refused"))
     ck.floor(R, "data-model kinds compared", n, 20)
+
+
+def c09c(ck, prog):
+    """A char is one Unicode scalar value, not one byte: visit_char may only run when the decoded text has exactly one
+    `char` -- established on the char iterator (first next() is Some, second is None, or chars().count() == 1), never on
+    the byte length."""
+    R = "C09-c DECISION char"
+    n = 0
+    for f in prog.fns.values():
+        if not (f.name == "deserialize_char" and f.crate == "ohkami_lib" and f.trait == "serde_core::de::Deserializer"):
+            continue
+        vc = [c for g in [f] + prog.descendants(f.key) for c in g.calls() if c.name == "visit_char"]
+        if not vc:
+            continue  # forwarded to deserialize_any etc.
+        n += 1
+        who = re.sub(r".*::(\w+)<.*", r"\1", f.self_ty or "")
+        for c in vc:
+            g = c.fn
+            facts = guards.facts_at(g, prog, c.bb)
+            nexts = {}
+            for fa in facts:
+                if fa.kind == "variant" and fa.steps and fa.steps[-1][0] == "call" and re.search(r"str::iter::Chars<.*Iterator>::next$", fa.steps[-1][1].callee or "") and fa.allowed and len(fa.allowed) == 1:
+                    if not any(pr[0] == "dc" for st in fa.steps for pr in (st[2] if len(st) > 2 else [])):
+                        nexts[fa.steps[-1][1].bb] = tuple(fa.allowed)[0]
+            by_iter = sorted(nexts.values())
+            count1 = any(fa.kind == "cmp" and fa.op == "Eq" and {guards.describe_origin(g, fa.lhs), guards.describe_origin(g, fa.rhs)} == {"call:count", "const 1"} for fa in facts)
+            bytelen = [fa for fa in facts if fa.kind == "cmp" and any(guards.is_len_origin(g, x) for x in (fa.lhs, fa.rhs))]
+            ok = (by_iter == ["None", "Some"] or count1) and not bytelen
+            ck.ob(R, "%s:visit_char" % who, ok, g.loc(c.sp),
+                  "" if ok else "%s::deserialize_char accepts a value when %s%s: a char is one Unicode scalar (1-4 bytes), so `é`, `狼` or an emoji is not handled like `a`" % (
+                      who, "chars().next() facts are %r" % by_iter, ", and it tests the byte length" if bytelen else ""),
+                  how="visit_char only when chars().next() is Some and the following next() is None")
+    ck.floor(R, "deserialize_char implementations", n, 3)
